@@ -160,6 +160,16 @@ class C09(StackCheck):
             yield self.gen_shared(rng)
 
     def exhaustive(self, tier):
+        # a merged split file of three segments (one of them a window): every history of three seeks / reads from a small alphabet
+        # (absolute, relative and end-relative, landing inside each segment, on the boundaries, at and past the end), then a
+        # bounded read and tell - whatever the merger remembers about "the current segment" is put to the test
+        segs = [[['bio', bytes(range(0x20, 0x23))], 3], [['sub', 1, 4, ['bio', bytes(range(0x30, 0x37))]], 4], [['bio', bytes(range(0x40, 0x42))], 2]]
+        alpha = ([['s', o, 0] for o in (0, 2, 3, 5, 7, 9, 12)] + [['s', o, 1] for o in (-7, -3, -1, 2, 5)] +
+                 [['s', o, 2] for o in (-9, -4, 0, 3)] + [['r', n] for n in (-1, 0, 2, 20)])
+        for a in alpha:
+            for b in alpha:
+                for c in alpha:
+                    yield {'node': ['merge', segs], 'ops': [a, b, c, ['r', 2], ['t']]}
         # all windows of a 6-byte base x all op pairs from a small alphabet
         if tier != 'thorough':
             return
